@@ -242,3 +242,72 @@ def resolve_place(body, pl, depth=6):
                 extra = ['[?]'] if 'ndex' in (st['f'].get('fn') or '') else []
                 return {'l': inner['l'], 'p': inner['p'] + extra + pl['p'][1:]}
     return pl
+
+
+TRANSPARENT_CALLS = r'Clone>::clone$|Deref>::deref$|DerefMut>::deref_mut$|AsRef<.*>>::as_ref$|Borrow<.*>>::borrow$|::as_str$|ToOwned>::to_owned$|ToString>::to_string$|::as_bytes$|::as_slice$|From<.*>>::from$|Into<.*>>::into$'
+
+
+def source_locals(body, o, depth=10, seen=None):
+    """locals (indices) a value is derived from through copies, borrows and value-preserving conversions."""
+    if seen is None:
+        seen = set()
+    out = set()
+    if not is_local_op(o) or depth == 0:
+        return out
+    l = o['l']
+    if l in seen:
+        return out
+    seen.add(l)
+    out.add(l)
+    for pos, st in defs_of(body, l):
+        if st['k'] == 'assign':
+            rv = st['rv']
+            if rv['k'] in ('use', 'cast'):
+                out |= source_locals(body, rv['o'], depth - 1, seen)
+            elif rv['k'] in ('ref', 'rawptr'):
+                out |= source_locals(body, {'l': rv['pl']['l'], 'p': []}, depth - 1, seen)
+        elif st['k'] == 'call' and call_matches(st, TRANSPARENT_CALLS) and st['args']:
+            out |= source_locals(body, st['args'][0], depth - 1, seen)
+    return out
+
+
+def source_names(body, o):
+    return {body.names[l] for l in source_locals(body, o) if l in body.names}
+
+
+def strict_source_roots(body, o, depth=12, seen=None):
+    """like source_locals but returns the set of ROOTS of every derivation chain: ('local', name|index) for locals that are
+    not themselves copies, ('const', text) for constants.  Used to require that a value derives ONLY from a given variable."""
+    if seen is None:
+        seen = set()
+    if not is_local_op(o):
+        return {('const', str(o.get('v', o.get('fn'))))}
+    l = o['l']
+    if l in seen or depth == 0:
+        return set()
+    seen.add(l)
+    ds = defs_of(body, l)
+    roots = set()
+    if 1 <= l <= body.argc:
+        roots.add(('local', body.names.get(l, l)))
+    for pos, st in ds:
+        if st['k'] == 'assign':
+            rv = st['rv']
+            if rv['k'] in ('use', 'cast'):
+                roots |= strict_source_roots(body, rv['o'], depth - 1, seen)
+                continue
+            if rv['k'] in ('ref', 'rawptr'):
+                if rv['pl']['p'] and rv['pl']['p'] != ['*']:
+                    roots.add(('local', body.names.get(rv['pl']['l'], rv['pl']['l'])))
+                else:
+                    inner = strict_source_roots(body, {'l': rv['pl']['l'], 'p': []}, depth - 1, seen)
+                    roots |= inner if inner else {('local', body.names.get(rv['pl']['l'], rv['pl']['l']))}
+                continue
+            roots.add(('local', body.names.get(l, l)))
+        elif st['k'] == 'call' and call_matches(st, TRANSPARENT_CALLS + r'|IntoIterator>::into_iter$|::iter$|Unsize|::as_ref$') and st['args']:
+            roots |= strict_source_roots(body, st['args'][0], depth - 1, seen)
+        else:
+            roots.add(('local', body.names.get(l, l)))
+    if not ds and not roots:
+        roots.add(('local', body.names.get(l, l)))
+    return roots
